@@ -1,2 +1,95 @@
-(* further case kinds are added here as models grow *)
-let eval (fn : string) (_args : string list) : string = failwith ("unknown case kind " ^ fn)
+(* case kinds beyond the util functions *)
+open Model
+open Glue
+
+(* ---------- C13: AST programs ---------- *)
+let oid_of_int i = if i = 0 then None else Some (n_of_int i)
+let int_of_oid = function None -> 0 | Some x -> int_of_n x
+
+let parse_op (s : string) : op =
+  let k = s.[0] in
+  let nums = List.map int_of_string (String.split_on_char '.' (String.sub s 1 (String.length s - 1))) in
+  match k, nums with
+  | 'A', [s; x] -> OAppend (n_of_int s, oid_of_int x)
+  | 'D', [s; x] -> ORemove (n_of_int s, oid_of_int x)
+  | 'B', [s; r; x] -> OInsertBefore (n_of_int s, oid_of_int r, oid_of_int x)
+  | 'F', [s; r; x] -> OInsertAfter (n_of_int s, oid_of_int r, oid_of_int x)
+  | 'R', [s; r; x] -> OReplace (n_of_int s, oid_of_int r, oid_of_int x)
+  | 'C', [s] -> ORemoveChildren (n_of_int s)
+  | 'S', s :: keys ->
+    let arr = Array.of_list keys in
+    OSort (n_of_int s, (fun i -> let j = int_of_n i in z_of_int (if j < Array.length arr then arr.(j) else 0)))
+  | _ -> failwith ("bad op " ^ s)
+
+let observe_heap (h : heap) (n : int) : string =
+  let b = Buffer.create 64 in
+  for i = 1 to n do
+    if i > 1 then Buffer.add_char b ';';
+    let x = n_of_int i in
+    Buffer.add_string b (Printf.sprintf "%d,%d,%d,%d,%d,%d,%d"
+      (int_of_oid (h.par x)) (int_of_oid (h.fst_ x)) (int_of_oid (h.lst x))
+      (int_of_oid (h.nxt x)) (int_of_oid (h.prv x)) (int_of_z (h.cnt x))
+      (if h.fst_ x = None then 0 else 1))
+  done; Buffer.contents b
+
+(* what the forest specification predicts for the same observers *)
+let observe_forest (f : forest) (n : int) : string =
+  let b = Buffer.create 64 in
+  for i = 1 to n do
+    if i > 1 then Buffer.add_char b ';';
+    let x = n_of_int i in
+    let k = f.ch x in
+    let next, prev = match f.pa x with
+      | None -> 0, 0
+      | Some p ->
+        let sib = List.map int_of_n (f.ch p) in
+        let rec go prev = function
+          | [] -> 0, 0
+          | y :: tl -> if y = i then ((match tl with z :: _ -> z | [] -> 0), prev) else go y tl in
+        go 0 sib in
+    Buffer.add_string b (Printf.sprintf "%d,%d,%d,%d,%d,%d,%d"
+      (int_of_oid (f.pa x)) (int_of_oid (head_opt k)) (int_of_oid (last_opt k)) next prev (List.length k)
+      (if k = [] then 0 else 1))
+  done; Buffer.contents b
+
+let run_ast_prog (n : int) (prog : string) : (heap * forest * string) =
+  let fuel = nat_of_int (n + 2) in
+  let ops = List.map parse_op (split_on ' ' prog) in
+  let obs = ref [] in
+  let h = ref empty_heap and f = ref empty_forest in
+  (try List.iter (fun o ->
+    if not (legal fuel !f o) then begin obs := "ILLEGAL" :: !obs; raise Exit end;
+    (match step fuel !h o with
+     | Ok h' -> h := h'; f := spec_step !f o;
+       let oh = observe_heap h' n and of_ = observe_forest !f n in
+       if oh <> of_ then obs := ("SPEC-DIFF(" ^ oh ^ " vs " ^ of_ ^ ")") :: !obs else obs := oh :: !obs
+     | Panic -> obs := "PANIC" :: !obs; raise Exit
+     | OutOfFuel -> obs := "FUEL" :: !obs; raise Exit)) ops with Exit -> ());
+  (!h, !f, String.concat "|" (List.rev !obs))
+
+let visitor_of_script (script : string) : nat -> n -> bool -> (n * bool) =
+  let arr = Array.of_list (split_on ',' script) in
+  fun k _ _ ->
+    let i = int_of_nat k in
+    let s = if i < Array.length arr then arr.(i) else "3" in
+    (n_of_int (Char.code s.[0] - 48), String.length s > 1 && s.[1] = 'e')
+
+let trace_str tr = String.concat "," (List.map (fun (x, e) -> (if e then "+" else "-") ^ string_of_int (int_of_n x)) tr)
+
+let eval (fn : string) (args : string list) : string =
+  match fn, args with
+  | "AstProg", [n; prog] -> let (_, _, o) = run_ast_prog (int_of_string n) prog in o
+  | "AstWalk", [n; prog; root; script] ->
+    let n = int_of_string n in
+    let (h, f, _) = run_ast_prog n prog in
+    let v = visitor_of_script script in
+    let fuel = nat_of_int (2 * n + 4) in
+    let r1 = walk fuel h v (n_of_int (int_of_string root)) in
+    let r2 = walk_spec fuel f v (n_of_int (int_of_string root)) [] in
+    (match r1, r2 with
+     | Ok (err, tr), Ok ((_, err2), tr2) ->
+       let a = s_of_bool err ^ ":" ^ trace_str tr and b = s_of_bool err2 ^ ":" ^ trace_str tr2 in
+       if a <> b then "SPEC-DIFF(" ^ a ^ " vs " ^ b ^ ")" else a
+     | Panic, _ | _, Panic -> "PANIC"
+     | _, _ -> "FUEL")
+  | _ -> failwith ("unknown case kind " ^ fn)
